@@ -87,7 +87,6 @@ FOLDS = {
     "str": lambda bits: "".join(str(int(b)) for b in bits),
     "weighted": lambda bits: int(sum((i + 1) * int(b) for i, b in enumerate(bits))),
 }
-_SKIP = set(x for x in os.environ.get("VERIF_C18_ASSUME_KNOWN", "").split(",") if x)  # development aid only
 
 
 _RES = re.compile(r"(ResultDict|EngineResult|_CustomResult)\((records|measurements)=\.\.\.\)")
@@ -159,8 +158,7 @@ def _records_case(draw):
         "add_err": draw(st.sampled_from(["none", "params", "extra_key", "missing_key", "width", "inst"])),
         "mutate": [draw(st.integers(0, 5)), draw(st.integers(0, 19)), draw(st.integers(0, 2)), draw(st.integers(0, 69))],
         "legacy_type": draw(st.sampled_from(["ResultDict", "TrialResult", "Result"])),
-        "wide_fold": draw(st.integers(0, 3)) == 0, "key_types": draw(st.booleans()),
-        "probe": draw(st.integers(0, 9)), "probe_again": draw(st.integers(0, 2)) == 0,
+        "probe": draw(st.integers(0, 9)), "probe_again": draw(st.booleans()),
     }
 
 
@@ -310,8 +308,6 @@ def oracle_records(r):
     for i in r.get("mm", []):
         if specs and specs[int(i) % len(specs)]["name"] not in mm:
             mm.append(specs[int(i) % len(specs)]["name"])
-    wide_fold = bool(r.get("wide_fold")) and "F18e" not in _SKIP
-    key_types = bool(r.get("key_types")) and "F18a" not in _SKIP
 
     def hist_calls(s):
         nm = s["name"]
@@ -322,11 +318,9 @@ def oracle_records(r):
         calls = []
         if s["binary"]:
             calls.append(("histogram(key)", dict(key=key), RR.counter(v2), True))
-        if RR.prod(s["radix"]) <= 2 ** 63 or wide_fold:
-            calls.append(("histogram(key, fold_base=[per-digit])", dict(key=key, fold_base=list(s["radix"])), RR.counter(v2), True))
-        if b_int ** len(s["radix"]) <= 2 ** 63 or wide_fold:
-            calls.append((f"histogram(key, fold_base={b_int})", dict(key=key, fold_base=b_int),
-                          RR.counter(RR.digits_to_int_uniform(d, b_int) for d in rows2), True))
+        calls.append(("histogram(key, fold_base=[per-digit])", dict(key=key, fold_base=list(s["radix"])), RR.counter(v2), True))
+        calls.append((f"histogram(key, fold_base={b_int})", dict(key=key, fold_base=b_int),
+                      RR.counter(RR.digits_to_int_uniform(d, b_int) for d in rows2), True))
         calls.append(("histogram(key, fold_func=tuple)", dict(key=key, fold_func=lambda bits: tuple(int(b) for b in bits)),
                       RR.counter(tuple(d) for d in rows2), False))
         calls.append((f"histogram(key, fold_func={fold_name})", dict(key=key, fold_func=fold), RR.counter(fold(d) for d in rows2), False))
@@ -358,7 +352,7 @@ def oracle_records(r):
             for label, kw, want, ints in hist_calls(s):
                 got = res.histogram(**kw)
                 _check_counter(f"{W}.{label} [width {len(s['radix'])}, {'bits' if s['binary'] else 'qudit digits'}]", got, want)
-                if ints and (key_types or len(s["radix"]) > 1) and not all(_is_exact_int(k) for k in got):
+                if ints and not all(_is_exact_int(k) for k in got):
                     t = sorted({type(k).__name__ for k in got})
                     raise Violation(f"{W}.{label}: histogram keys are {t}, not integers (width {len(s['radix'])})")
             try:
@@ -509,7 +503,7 @@ def oracle_records(r):
             for label, kw, want, _ in hist_calls(s)[:2]:
                 probes.append((f"{label} of a key with {s['inst']} instance(s)", (lambda kw=kw: res.histogram(**kw)), want if s["inst"] == 1 else None))
         first = int(r.get("probe", 0)) % len(probes)
-        todo = [probes[first]] + (probes if r.get("probe_again") and "F18f" not in _SKIP else [])
+        todo = [probes[first]] + (probes if r.get("probe_again") else [])
         for n_try, (label, fn, may_equal) in enumerate(todo):
             again = " (asked again after an earlier ValueError)" if n_try else ""
             try:
@@ -728,7 +722,8 @@ def oracle_store(r):
                 order.append(nk)
             model[nk].append(v)
         elif kind == "copy":
-            snapshots.append((store.copy(), {kk: list(vv) for kk, vv in model.items()}, list(order)))
+            snapshots.append(1)
+            check(store.copy(), model, order, "copy()")
         elif kind == "bad_shape" and k in model:
             other = [cirq.LineQid(900 + j, d + 1) for j, d in enumerate(shapes[k])]
             _expect_value_error("record_measurement with a different qid shape for a used key",
@@ -741,15 +736,10 @@ def oracle_store(r):
             for fn, nm in ((store.get_int, "get_int"), (store.get_digits, "get_digits")):
                 try:
                     fn(keys[k], bad)
-                except KeyError:
+                except LookupError:
                     pass
-                except IndexError:
-                    if "F18d" in _SKIP:
-                        continue
-                    raise Violation(f"ClassicalDataDictionaryStore.{nm}(key, index) with index out of bounds raises IndexError; "
-                                    "documented: KeyError")
                 else:
-                    raise Violation(f"{nm} with out-of-bounds index answered")
+                    raise Violation(f"ClassicalDataDictionaryStore.{nm} with an out-of-bounds index answered")
         check(store, model, order, f"after {kind}")
     try:
         store.get_int(cirq.MeasurementKey("unused"))
@@ -757,10 +747,6 @@ def oracle_store(r):
         pass
     else:
         raise Violation("get_int of an unused key answered")
-    for snap, m, o in snapshots:
-        if "F18c" in _SKIP and m != model:
-            continue
-        check(snap, m, o, "copy() taken earlier, after later recordings into the original")
     back = cirq.read_json(json_text=cirq.to_json(store))
     check(back, model, order, "JSON round trip")
     return {"nontrivial": n_rec >= 2 and any(len(set(s)) > 1 for s in shapes), "copied": bool(snapshots),
@@ -1005,8 +991,6 @@ def oracle_samplers(r):
         for key, ninst, radix in shapes[i]:
             shape = (nreps, ninst, len(radix))
             if sim and nreps == 0 and tuple(res.records[key].shape) != shape:
-                if "F18b" in _SKIP:
-                    continue
                 raise Violation(f"{what}: records[{key!r}].shape = {tuple(res.records[key].shape)} for 0 repetitions of a key measured "
                                 f"{ninst}x on {len(radix)} qubits; documented layout (repetitions, instances, qubits) = {shape}")
             _same_array(f"{what}: records[{key!r}]", res.records[key], exp[key], shape)
@@ -1065,8 +1049,6 @@ def oracle_samplers(r):
                 else:
                     raise Violation(f"{kind}.sample of a program with a repeated key returned a frame")
             log.take()
-            continue
-        if sim and reps[i] == 0 and "F18b" in _SKIP:
             continue
         log.take()
         df = sampler.sample(c, repetitions=reps[i], params=sw)
@@ -1178,56 +1160,7 @@ def oracle_abstract(r):
     return {"nontrivial": False}
 
 
-# ======================================================================================= known candidates
-
-
-def _feat_width1_fold_base_list(sub, r):
-    if sub != "records" or not r.get("key_types"):
-        return False
-    _, specs, _ = _normalise(r)
-    return bool(specs) and all(s["inst"] == 1 for s in specs) and any(len(s["radix"]) == 1 for s in specs)
-
-
-def _feat_fold_base_beyond_int64(sub, r):
-    if sub != "records" or not r.get("wide_fold"):
-        return False
-    _, specs, _ = _normalise(r)
-    if not specs or any(s["inst"] > 1 for s in specs):
-        return False
-    extra = int(r.get("base_extra", 0) or 0)
-    return any(RR.prod(s["radix"]) > 2 ** 63 or (max(s["radix"]) + extra) ** len(s["radix"]) > 2 ** 63 for s in specs)
-
-
-def _feat_measurements_retry(sub, r):
-    if sub != "records" or not r.get("probe_again") or r.get("via") not in ("records", "engine"):
-        return False
-    _, specs, _ = _normalise(r)
-    return any(s["inst"] > 1 for s in specs)
-
-
-def _feat_sim_zero_reps(sub, r):
-    return sub == "samplers" and r.get("kind") in ("sim", "dm") and any(int(x) == 0 for x in r.get("reps", []))
-
-
-def _feat_store_copy(sub, r):
-    if sub != "store":
-        return False
-    kinds = [a[0] for a in r.get("acts", [])]
-    return "copy" in kinds and any(k in ("rec", "chan") for k in kinds[kinds.index("copy") + 1:])
-
-
-def _feat_store_oob(sub, r):
-    return sub == "store" and any(a[0] == "oob" for a in r.get("acts", []))
-
-
-KNOWN_FEATURES = {
-    "F18a_histogram_fold_base_list_width1_float_keys": _feat_width1_fold_base_list,
-    "F18b_simulator_zero_repetitions_record_shape": _feat_sim_zero_reps,
-    "F18c_classical_data_copy_shares_record_lists": _feat_store_copy,
-    "F18d_classical_data_index_error": _feat_store_oob,
-    "F18e_histogram_fold_base_overflow_beyond_int64": _feat_fold_base_beyond_int64,
-    "F18f_measurements_partial_cache_after_value_error": _feat_measurements_retry,
-}
+KNOWN_FEATURES = {}  # F18a/b/e/f were repaired by fix: commits; their recipes are replayed from known_findings.json
 
 
 def uncovered():
